@@ -135,6 +135,14 @@ impl Ep {
             Ep::PcPair(e) => e.feed(input).await,
         }
     }
+    /// The endpoint's current value of a sequence space (what it has received / expects), if the harness can tell.
+    fn seq_base(&self, space: &str) -> Option<u64> {
+        match self {
+            Ep::Sctp(e) => e.seq_base(space),
+            Ep::PcRtp(e) => e.seq_base(space),
+            _ => None,
+        }
+    }
     /// Entry-specific repair of a mutated input (e.g. the SCTP checksum), given the mutated field.
     fn prepare_input(&mut self, input: Vec<u8>, field: &str) -> Vec<u8> {
         match self {
@@ -203,7 +211,12 @@ async fn one_run(ctx: &Ctx, entry: &str, pre: &[Value], ci: usize, tpl: &str, cl
         Some((idx, mutn)) => {
             let mut rng = ctx.rng_for(ci, variant);
             // concretisations 0/1 select the endpoint's role / mode as built; 2/3 repeat them with noise in the free bytes
-            match g.concretise(leaves, idx, mutn, if variant >= 2 { Some(&mut rng) } else { None }) {
+            let base = if mutn.starts_with("seq_") { ep.seq_base(&leaves[idx].sq) } else { None };
+            let made = match base {
+                Some(b) => g.concretise_seq(leaves, idx, mutn, b, if variant >= 2 { Some(&mut rng) } else { None }),
+                None => g.concretise(leaves, idx, mutn, if variant >= 2 { Some(&mut rng) } else { None }),
+            };
+            match made {
                 Some(i) => ep.prepare_input(i, &leaves[idx].n),
                 None => return Ok(None),
             }
